@@ -820,18 +820,18 @@ func traverseAST(node *sitter.Node, sourceCode []byte, graph *CodeGraph, current
 				}
 			}
 			if child.Type() == "superclass" {
-				for j := 0; j < int(child.ChildCount()); j++ {
-					if child.Child(j).Type() == "type_identifier" {
-						superClass = child.Child(j).Content(sourceCode)
-					}
+				// the extended type, also when qualified or generic
+				for j := 0; j < int(child.NamedChildCount()); j++ {
+					superClass = child.NamedChild(j).Content(sourceCode)
 				}
 			}
 			if child.Type() == "super_interfaces" {
 				for j := 0; j < int(child.ChildCount()); j++ {
 					// typelist node and then iterate through type_identifier node
 					typeList := child.Child(j)
-					for k := 0; k < int(typeList.ChildCount()); k++ {
-						implementedInterface = append(implementedInterface, typeList.Child(k).Content(sourceCode))
+					// the types only, not the commas between them
+					for k := 0; k < int(typeList.NamedChildCount()); k++ {
+						implementedInterface = append(implementedInterface, typeList.NamedChild(k).Content(sourceCode))
 					}
 				}
 			}
